@@ -15,7 +15,7 @@ from .c13 import outcome
 
 GCC = ['gcc', '-std=c99', '-pedantic-errors', '-Wall', '-Wextra', '-fPIC', '-shared']
 OUTSIDE = ['REAL', 'OBJECT IDENTIFIER', 'IA5String', 'UTF8String', 'INTEGER-unbounded', 'SET', 'UTCTime',
-           'BIT STRING-variable', 'recursion', 'additions']
+           'BIT STRING-variable', 'recursion', 'additions', 'BIT STRING-default']
 
 
 def c_profile(codec, outside):
@@ -42,7 +42,7 @@ def c_profile(codec, outside):
     p.groups = False
     p.ext = True
     p.bit_fixed_max = 64
-    p.default_kinds = ['BOOLEAN', 'INTEGER', 'ENUMERATED']
+    p.default_kinds = ['BOOLEAN', 'INTEGER', 'ENUMERATED', 'OCTET STRING']
     p.max_size_bound = 12
     # length fields of one or two octets / 8 or 9 bits in the generated C (kept <= 300: the arrays live in structs
     # that the generated fuzz harness puts on the stack)
@@ -70,6 +70,8 @@ def c_profile(codec, outside):
         p.bit_fixed_max = None
     elif outside == 'recursion':
         p.recursion = True
+    elif outside == 'BIT STRING-default':
+        p.default_kinds = p.default_kinds + ['BIT STRING'] * 3
     return p
 
 
@@ -266,6 +268,12 @@ def directed_modules(codec):
                                                Member('z', Ty('BOOLEAN'))])))
     items.append(('M', 'S2', [{'n': {'x': 2, 'y': True}, 'x': 5, 'z': False}, {'n': {'x': 9, 'y': False}, 'x': 3, 'z': True},
                               {'n': {'x': 9, 'y': True}, 'x': 5, 'z': True}, {'n': {'y': True}, 'z': False}]))
+    m.types.append(('SO', Ty('SEQUENCE', root=[
+        Member('o', Ty('OCTET STRING', size=Rng(0, 5)), has_default=True, default=b'\x01\x02', default_txt="'0102'H"),
+        Member('z', Ty('BOOLEAN'))])))
+    items.append(('M', 'SO', [{'o': b'\x01\x02', 'z': True}, {'o': b'\x01\x02\x03', 'z': False},
+                              {'o': b'\x01', 'z': True}, {'o': b'', 'z': False}, {'z': True},
+                              {'o': b'\x09\x02', 'z': True}]))
     el = Ty('SEQUENCE', root=[Member('a', Ty('INTEGER', rng=Rng(0, 255)), optional=True),
                               Member('b', Ty('BOOLEAN'), has_default=True, default=True, default_txt='TRUE'),
                               Member('c', Ty('INTEGER', rng=Rng(0, 7)))])
